@@ -69,6 +69,12 @@ func (p *Program) Reach(from []Loc, stop func(ssa.Instruction) bool) map[ssa.Ins
 // condition rules out (a nil test of a value that is never nil, such as a
 // freshly made error; a constant boolean).
 func (p *Program) feasibleSuccs(b *ssa.BasicBlock) []*ssa.BasicBlock {
+	// control does not continue after a call that never returns (os.Exit behind errorf, ...)
+	for _, in := range b.Instrs {
+		if p.callNoReturnCached(in) {
+			return nil
+		}
+	}
 	return feasibleSuccsWith(b, func(v ssa.Value) bool { return p.definitelyNonNil(v, 0) })
 }
 
